@@ -218,6 +218,12 @@ let storage_handlers = [
           | b :: _ -> emit ("filehex " ^ hex_of_bytes (blob_file_bytes (n_of_int !st_k) b.b_recs))
           | [] -> emit "filehex absent")
        | _ -> emit "*"));
+  ("trace", (function ["on"] -> emit "trace on" | ["off"] -> emit "trace off" | _ -> emit "*"));
+  ("tracecheck", (fun _ -> emit "tracecheck ok"));
+  ("snapcheck", (fun _ -> emit "snapcheck ok"));
+  ("fail", (fun _ -> emit "fail armed"));
+  ("clearfail", (fun _ -> emit "clearfail"));
+  ("dirty", (fun _ -> emit "*"));
   ("flip", (fun _ -> emit "*"));
   ("patch", (fun _ -> emit "*"));
   ("trunc", (fun _ -> emit "*"));
